@@ -41,6 +41,7 @@ type Harness struct {
 	ConcreteMake  bool              `json:"concrete_make,omitempty"`
 	NoWitness     bool              `json:"nowitness,omitempty"`
 	OOBHook       string            `json:"oobhook,omitempty"` // harness function called with the size of an allocation beyond the buffer bound
+	Real          []string          `json:"real,omitempty"`    // summaries switched off for this harness (substring of the function's full name): the real SSA runs
 	SharedWrites  bool              `json:"-"` // report writes of the code under test to package-level memory (C16/C17 checks)
 	PropsThorough []string          `json:"props_thorough,omitempty"`
 }
